@@ -130,7 +130,7 @@ def build():
         'generators_consumed_once', ['C14', 'C07'], syn_generators_consumed_once,
         'a generator-valued local on the SQL execution path is iterated once, or turned into a list first'))
     fam.syntactic.append(Syntactic(
-        'database_argument_threaded', ['C16'], syn_database_threaded,
+        'database_argument_threaded', ['C16', 'C09'], syn_database_threaded,
         'every call, on the evolve path, of a repository function with an optional database parameter passes that '
         'parameter (nothing silently falls back to the default alias)'))
     return fam
